@@ -425,7 +425,7 @@ SiKnown(e) == e.si \in DOMAIN S
 (* HTTP push (C14).                                                        *)
 (***************************************************************************)
 PushSuccess == {102, 200, 201, 202, 204}
-PushGrace == 1000
+PushGrace == 250
 \* The newest incarnation that carried the name a POST body mentions.
 SubsNamed(name) == {si \in DOMAIN S : S[si].name = name}
 NewestNamed(name) == CHOOSE si \in SubsNamed(name) : \A x \in SubsNamed(name) : x <= si
@@ -666,7 +666,10 @@ EvGuards(e) ==
             \* (when a consumer of that subscription was abandoned earlier, the stuck one is also a
             \* subscription wedged by an abandoned request: C16)
             \* (a blocked Pull that does not return although a message is available: C15 as well)
-            { G(QuietTag(pend[c].e.op = "Pull", \E g \in gone : g.op \in {"Pull", "StreamOpen"} /\ g.sub = pend[c].e.sub),
+            \* (... and when the waiting Pull's batch limit is out of range, the out-of-range number made
+            \* a request hang: C17)
+            { G(QuietTag(pend[c].e.op = "Pull", \E g \in gone : g.op \in {"Pull", "StreamOpen"} /\ g.sub = pend[c].e.sub)
+                  \o (IF pend[c].e.op = "Pull" /\ (pend[c].e.max < 1 \/ pend[c].e.max > 65535) THEN ",C17" ELSE ""),
                     LET p == pend[c].e IN
                     (/\ (p.op = "Pull" /\ ~p.ri) \/ p.op = "StreamOpen"
                      /\ p.sub \in DOMAIN smap /\ S[smap[p.sub]].st = "live"
@@ -907,7 +910,13 @@ TraceNext ==
        IF e.k = "reset"
        THEN DoReset(e) /\ UNCHANGED stats
        ELSE IF skip
-       THEN UNCHANGED <<coreVars, skip, hdr, pend, tok, content, ptime, gone, httpLast, delT, obsDel, wire, lightNb, lightNl, stats>>
+       THEN \* the rest of a rejected history is not judged - except for what needs no state to be
+            \* judged: a call that never returned, a process in which nothing moved any more, a panic
+            /\ (e.k \in {"hang", "stall"} =>
+                   PrintT(<<"VIOL", ToJson([run |-> hdr.run, i |-> e.i, k |-> e.k, line |-> l, props |-> {"C07"}])>>))
+            /\ (e.k \in {"panic", "abort"} =>
+                   PrintT(<<"VIOL", ToJson([run |-> hdr.run, i |-> e.i, k |-> e.k, line |-> l, props |-> {"C17"}])>>))
+            /\ UNCHANGED <<coreVars, skip, hdr, pend, tok, content, ptime, gone, httpLast, delT, obsDel, wire, lightNb, lightNl, stats>>
        ELSE LET gs == IF Light THEN LightGuards(e) ELSE Retag16(e, LateGuards(e) \cup EvGuards(e))
                 bad == Fatal(gs)
             IN IF bad = {}
